@@ -103,14 +103,18 @@ class Disp:
         return None
 
 
-def disposables_for(states: list[State], log: list | None = None) -> list[Disp]:
+def disposables_for(states: list[State], log: list | None = None, lazy: bool = False) -> list[Disp]:
     """Spread the supplied states over disposables: one yields a single state, one a list of the
-    rest, one yields None."""
+    rest (a one-shot generator when `lazy`: any Iterable[State] is legal), one yields None."""
     ds: list[Disp] = [Disp(None, log, "none")]
     if states:
         ds.append(Disp(states[0], log, "single"))
     if len(states) > 1:
-        ds.append(Disp(list(states[1:]), log, "list"))
+        rest = list(states[1:])
+        ds.append(Disp((st for st in rest) if lazy else rest, log, "list"))
+    elif lazy and states:
+        # also the single state as a one-element generator
+        ds[1] = Disp((st for st in [states[0]]), log, "single-lazy")
     return ds
 
 
